@@ -96,9 +96,11 @@ def run_config(unit):
             bat_results = []
             bat_exc = None
             submitted = False
+            log_at_submission = None
             try:
                 gen = b()
                 submitted = True
+                log_at_submission = list(objs["b"].log)
                 for r in gen:
                     bat_results.append(r)
             except Exception as x:
@@ -124,6 +126,8 @@ def run_config(unit):
                 V("batch-failure-differs|%s" % ("missing" if bat_exc is None else "spurious"), "sequential failure %r, batch failure %r" % (seq_exc, bat_exc), seq)
             elif seq_exc is not None and exc_sig(seq_exc) != exc_sig(bat_exc):
                 V("batch-exception-differs|%s-vs-%s" % (type(seq_exc).__name__, type(bat_exc).__name__), "sequential %r, batch %r" % (seq_exc, bat_exc), seq)
+            if submitted and log_at_submission != objs["b"].log:
+                V("batch-not-executed-when-submitted", "when the batch call returned the object had run %r; after the results were read %r" % (log_at_submission, objs["b"].log), seq)
             if objs["b"].log != objs["s"].log:
                 V("batch-executed-different-calls|%s" % ("more" if len(objs["b"].log) > len(objs["s"].log) else "fewer-or-other"),
                   "batch ran %r, sequential ran %r" % (objs["b"].log, objs["s"].log), seq)
